@@ -244,14 +244,15 @@ TOK_TEXT = {"s.pn": "ex:a", "s.abs": "<http://x.org/s>", "s.rel": "<r1>", "s.bn"
             "o.pn": "ex:b", "o.abs": "<http://x.org/o#f>", "o.rel": "<r2>", "o.bn": "_:b2", "o.int": "57",
             "o.str": '"x y"', "o.xsd": '"5"^^xsd:int', "o.dti": '"v"^^<http://x.org/dt>', "o.dtp": '"v"^^ex:dt', "o.dtg": '"4"^^geo:deg',
             "o.lang": '"hola"@es', "o.spec": '"a # b ; c , d . e"', "o.esc": '"q\\"u\\\\"', "o.cls": "ex:C",
-            "o.https": "<https://s.org/x>", "s.https": "<https://s.org/y#z>", "@re": "@prefix ex: <http://ex2.org/> ."}
-SUBJ_TOKS = ["s.pn", "s.abs", "s.rel", "s.bn", "s.https"]
-PRED_TOKS = ["p.pn", "p.a", "p.abs", "p.type"]
-OBJ_TOKS = ["o.pn", "o.abs", "o.rel", "o.bn", "o.int", "o.str", "o.xsd", "o.dti", "o.dtp", "o.dtg", "o.lang", "o.spec", "o.esc", "o.cls", "o.https"]
+            "o.https": "<https://s.org/x>", "s.https": "<https://s.org/y#z>", "@re": "@prefix ex: <http://ex2.org/> .",
+            "s.bs": "base:s1", "p.bs": "prefixes:p1", "o.bs": "base:o1"}
+SUBJ_TOKS = ["s.pn", "s.abs", "s.rel", "s.bn", "s.https", "s.bs"]
+PRED_TOKS = ["p.pn", "p.a", "p.abs", "p.type", "p.bs"]
+OBJ_TOKS = ["o.pn", "o.abs", "o.rel", "o.bn", "o.int", "o.str", "o.xsd", "o.dti", "o.dtp", "o.dtg", "o.bs", "o.lang", "o.spec", "o.esc", "o.cls", "o.https"]
 GAPS = ["sp", "sp2", "tab", "nl", "nlsp", "cmt", "cline"]
 HEADER = ["@prefix ex: <http://ex.org/> .", "@prefix xsd: <http://www.w3.org/2001/XMLSchema#> .",
           "@prefix rdf: <http://www.w3.org/1999/02/22-rdf-syntax-ns#> .", "@prefix geo: <http://www.w3.org/2003/01/geo/wgs84_pos#> .",
-          "@base <http://b.org/d/> ."]
+          "@prefix base: <http://bb.org/> .", "@prefix prefixes: <http://pp.org/> .", "@base <http://b.org/d/> ."]
 COMMENT_TAIL = ' # c " .'
 COMMENT_LINE = "# line ;"
 
@@ -387,7 +388,7 @@ def check_c07(out, tier):
     i = 0
     forms = [("o.pn", "s.pn"), ("o.str", "s.rel"), ("o.dtp", "s.abs"), ("o.lang", "s.bn"), ("o.spec", "s.pn"), ("o.int", "s.rel"),
              ("o.esc", "s.abs"), ("o.xsd", "s.pn"), ("o.dti", "s.bn"), ("o.bn", "s.rel"), ("o.abs", "s.pn"), ("o.rel", "s.abs"),
-             ("o.https", "s.https"), ("o.dtg", "s.pn")]
+             ("o.https", "s.https"), ("o.dtg", "s.pn"), ("o.bs", "s.bs")]
     per = 160 if tier == "quick" else 4096
     for of, sf in forms:
         toks = skeleton(of, sf)
